@@ -1081,7 +1081,7 @@ fn variant_section(ctx: &Ctx) {
     }
     let thorough = ctx.tier.thorough();
     let runs = 3usize;
-    let pools: Vec<usize> = if thorough { vec![1, 2, 3, 4, 8, 16] } else { vec![1, 4] };
+    let pools: Vec<usize> = if thorough { vec![1, 2, 3, 4, 5, 6, 7, 8, 16] } else { vec![1, 3, 4] };
     let root = work_root();
     let mut execs: Vec<Exec> = Vec::new();
     for (variant, bin) in &bins {
